@@ -971,3 +971,25 @@ package regexp2
 //@     invariant 0 <= i && buf.$n >= 0
 //@   loop 3:
 //@     invariant 0 <= i && buf.$n >= 0
+
+// ---------------------------------------------------------------------------------------------
+// C12: the per-Regexp cache of parsed replacements never changes what Replace sees: whatever it returns for a key
+// is a successful parse of that key (never a failed or foreign one).
+// ---------------------------------------------------------------------------------------------
+//@ func (c *replacerDataCache) get(key string) (d *syntax.ReplacerData, ok bool)
+//@   trusted LRU over container/list, a map and a mutex (outside the modelled subset); assumed to return only what add stored under the same key
+//@   requires c != nil
+//@   modifies c.*
+//@   ensures ok ==> d != nil && syntax.ReplFor(d, key)
+//@   ensures !ok ==> d == nil
+//@ func (c *replacerDataCache) add(key string, d *syntax.ReplacerData)
+//@   trusted LRU over container/list, a map and a mutex (outside the modelled subset)
+//@   requires c != nil
+//@   requires[parsed] d != nil && syntax.ReplFor(d, key)
+//@   modifies c.*
+//@ func (re *Regexp) getReplacerData(replacement string) (d *syntax.ReplacerData, err error)
+//@   props C12 C09
+//@   requires re != nil
+//@   modifies objs(replacerDataCache)
+//@   ensures[ok]  err == nil ==> d != nil && syntax.ReplFor(d, replacement)
+//@   ensures[err] err != nil ==> d == nil
